@@ -51,3 +51,14 @@ CHECKS["C08"] = {
     "design_ref": "5/C08",
     "assumptions": TRUST,
 }
+
+CHECKS["C15"] = {
+    "tests": [T("TestC15Grid", 1, 1, qshards=1, tshards=4), T("TestC15", 250, 2500)],
+    "level": "exploration",
+    "technique": "exhaustive enumeration of (chain length, limit) for single-writer logs + property-based testing (rapid) of multi-head persisted logs; oracle = count/order/newest/most-recent-n invariants against the recorded full log",
+    "rule": "TestC15Grid enumerates every single-writer chain length T in 0..12 x every limit in [-3, T+5] (alternating per-call limit and MaxHistory via a wrapping store constructor) plus chains of 20/40/70 entries (where skip references matter) at 7 limits each; TestC15 draws logs with 1-2 other writers (local runs, remote runs, merges => several cached heads, stale _remoteHeads) and a limit from [-3,60]; each case: build the log, stop the instance, cut the peer off, restart on the same disk, Load(limit), then: Load returned nil, exactly min(n,total) entries (all for n<=0), listed as a subsequence of the pre-restart Values() order, newest entry included, and for a single writer (or n<=0) exactly the most recent ones; a panic in a goroutine kills the test process and is confirmed by the driver by re-executing the journaled case; non-trivial = limit >= total, or limit <= 0, or >= 2 cached heads; distinct = SHA-1 of the case JSON",
+    "level_text": "The single-writer (T<=12) x limit grid is enumerated completely in both tiers; multi-head logs are sampled.",
+    "level_note": "Trusted: go-ipfs-log fetcher and Join (the limit-beyond-log panic originates there and is worked around at go-orbit-db's call site). Restart = instance closed and re-created on the same recorded datastore and block store.",
+    "design_ref": "5/C15",
+    "assumptions": TRUST,
+}
